@@ -7,6 +7,9 @@ cShapes == {[nS |-> a, nC |-> b, nK |-> c, sens |-> s] : a \in 1..4, b \in 0..2,
 cShapesCal == {[nS |-> a, nC |-> b, nK |-> 2, sens |-> s] : a \in 1..2, b \in 0..1, s \in {<<2>>, <<1, 2>>, <<3>>}}
 \* controls and calibrations always present (mixed-symbol expressions through chained binary growth)
 cShapesMix == {[nS |-> a, nC |-> b, nK |-> c, sens |-> s] : a \in 2..3, b \in 1..2, c \in 1..2, s \in {<<2>>, <<1, 2>>}}
+\* prediction histories whose control Jacobian depends on state and control: two controls, products only
+cShapesCtl == {[nS |-> a, nC |-> 2, nK |-> c, sens |-> <<>>] : a \in 1..2, c \in 0..1}
+cOpsMulAdd == {"mul", "add"}
 cShapesNoSens == {[nS |-> a, nC |-> b, nK |-> c, sens |-> <<>>] : a \in 1..4, b \in 0..3, c \in 0..2}
 cShapesAll == cShapes \cup cShapesNoSens
 cShapesC12 == {[nS |-> a, nC |-> b, nK |-> c, sens |-> s] : a \in 1..2, b \in 0..2, c \in 0..1, s \in {<<>>, <<2>>, <<1, 2>>, <<1, 1, 2>>}}
